@@ -552,6 +552,30 @@ def with_helpers(F, path, depth=2, limit=300, exclude=()):
     return _WH[k][0]
 
 
+def deep_bodies(F, path, depth=2, limit=300):
+    """`with_helpers(F, path)` and every closure that belongs to it, each closure too with the crate's helpers inlined, and the
+    closures *those* bring along, to a fixed point: everything that runs "inside" the function, however it was split into
+    helpers and closures.  Bodies are distinct (by path); a helper inlined into several of them appears in each."""
+    base = with_helpers(F, path, depth=depth, limit=limit)
+    want = _WH[(id(F), path, depth, limit, ())][1]
+    out, seen, work = [], set(), [base]
+    while work and len(out) < 60:
+        b = work.pop(0)
+        if b["path"] in seen:
+            continue
+        seen.add(b["path"])
+        out.append(b)
+        for c in with_closures(F, b)[1:]:
+            if c["path"] in seen:
+                continue
+            try:
+                ci = mir.inline_calls(F, c, want=want, depth=depth)
+            except Exception:
+                ci = c
+            work.append(ci)
+    return out
+
+
 def row_lookup(rows, present):
     """Reviewed rows keyed `<fn path>|<what>`: a row whose own site no longer exists (the function was renamed, moved or inlined
     into its caller) still speaks for an untabled site of the same `<what>` in the same crate.  Returns lookup(key) ->
